@@ -62,8 +62,8 @@ ANCHORS = [
 
 def plan(tier):
     if tier == "quick":
-        return {"shards": 16, "full_matrix": False, "descriptions": 40, "random": 40, "timeout": 300}
-    return {"shards": 16, "full_matrix": True, "descriptions": 1200, "random": 3000, "timeout": 3000}
+        return {"shards": 16, "full_matrix": False, "descriptions": 40, "random": 40, "timeout": 900}
+    return {"shards": 16, "full_matrix": True, "descriptions": 1200, "random": 3000, "timeout": 7200}
 
 
 def shape_schema(shape, serial):
